@@ -170,6 +170,8 @@ CoreProgram(k, n, r, vals, ex) ==
   LET args == ArgExprs(vals) \o ex
       g == IF r THEN RestSpelling(k, n, r) ELSE CarCdrSpelling(k, n)
   IN [forms |-> <<Define("helper", Quote(MkSym("outer-helper"))), Define("ev", Quote(MkSym("outer-ev"))),
+                  \* top-level variables named like the parameters: binding parameters on a call never touches them
+                  Define("p1", Quote(MkSym("outer-p1"))), Define("rest", Quote(MkSym("outer-rest"))), Define("all", Quote(MkSym("outer-all"))),
                   Define("f", CoreLambda(k, n, r)),
                   Define("g", g),
                   FinishCall(k, Call("f", args)),
@@ -178,7 +180,7 @@ CoreProgram(k, n, r, vals, ex) ==
                   FinishCall(k, IF args = <<>> THEN Call("apply", <<Var("g")>>)
                             ELSE Call("apply", <<Var("g"), args[1], Call("list", Tail(args))>>)),
                   \* internal definitions live in the frame of their call only: the top-level bindings of the same names are intact
-                  Call("list", <<Var("helper"), Var("ev")>>)>>,
+                  Call("list", <<Var("helper"), Var("ev"), Var("p1"), Var("rest"), Var("all")>>)>>,
       tag |-> <<"core", k, n, r>>]
 CoreFamily(maxn) ==
   UNION {UNION {UNION {UNION {
